@@ -1,9 +1,9 @@
 import Pw.C01.Driver
 open Proto
 
-def handlers : List (String × Handler) := [
-  ("msep", C01.handle)
-]
+/-- all request handlers; each property contributes `CNN.handlers` -/
+def handlers : List (String × Handler) :=
+  C01.handlers
 
 def dispatch (line : String) : String :=
   let (fn, args) := parseLine line
